@@ -455,3 +455,282 @@ func rulePerRangePickersDistinct(c *Ctx, rule string) {
 		c.undecided(rule, nil, "per-range pickers", nil, fmt.Sprintf("expected the allocator's and the lookup's picker, found %d", n))
 	}
 }
+
+// C20.R6 — a range decodes successfully only by assigning the parsed range to the receiver
+func ruleRangeDecodeAssigns(c *Ctx, rule string) {
+	fn := c.MustFn(rule, "pkg/utils/nets", "(*IPRange).UnmarshalJSON")
+	if fn == nil {
+		return
+	}
+	ps := calls(fn, "pkg/utils/nets.ParseIPRange")
+	var stores []ssa.Instruction
+	allInstrs(fn, func(in ssa.Instruction) {
+		if st, ok := in.(*ssa.Store); ok {
+			root := st.Addr
+			for {
+				if fa, ok := root.(*ssa.FieldAddr); ok {
+					root = fa.X
+					continue
+				}
+				break
+			}
+			if unspill(root) == ssa.Value(fn.Params[0]) || root == ssa.Value(fn.Params[0]) {
+				stores = append(stores, st)
+			}
+		}
+	})
+	ok := len(ps) == 1 && len(stores) > 0
+	if ok {
+		r := reachFromEntry(fn, newCut().instr(stores...))
+		for _, ret := range returns(fn) {
+			if r.has(ret) && isNilConst(retVal(ret, 0)) {
+				ok = false
+			}
+		}
+		// the stores happen only behind the non-nil result of ParseIPRange
+		res := ps[0].Value()
+		g := nonNilEdgesOf(fn, func(x ssa.Value) bool { return x == res })
+		for _, st := range stores {
+			if !guardedBy(fn, st, g) {
+				ok = false
+			}
+		}
+	}
+	c.ob(rule, fn, "a range text is accepted only by storing the parsed range", nil, ok, "every nil-error return of (*IPRange).UnmarshalJSON passes a store to the receiver that lies behind ParseIPRange(..) != nil: no text (null, empty) is accepted as a no-op leaving a zero range")
+}
+
+// C20.R7 — callbacks of walkIPRanges that build the tables enumerate: they never stop the walk
+func ruleTableBuildersEnumerate(c *Ctx, rule string) {
+	fn := c.MustFn(rule, fipPkg, "(*crdIpam).ConfigurePool")
+	if fn == nil {
+		return
+	}
+	n := 0
+	for _, w := range calls(fn, fipPkg+".walkIPRanges") {
+		mc, ok := w.Common().Args[1].(*ssa.MakeClosure)
+		if !ok {
+			c.undecided(rule, fn, "walkIPRanges callback", w, "callback is not a closure literal")
+			continue
+		}
+		cl := mc.Fn.(*ssa.Function)
+		n++
+		onlyFalse := true
+		for _, ret := range returns(cl) {
+			if b, isC := constBoolVal(retVal(ret, 0)); !isC || b {
+				onlyFalse = false
+			}
+		}
+		c.ob(rule, cl, "the callback that fills the unallocated table visits every address of every pool", w, onlyFalse, "every return of the callback is the constant false (true would stop the walk of this pool: enumeration would disagree with Contains/Size)")
+	}
+	if n == 0 {
+		c.undecided(rule, fn, "walkIPRanges", nil, "no enumeration of pool ranges found in ConfigurePool")
+	}
+}
+
+// C19.R8 — objects handed out by an informer cache (lister Get/List, indexer lookups) are shared with every other reader:
+// no field of such an object is written (a copy must be made first)
+func ruleListerObjectsReadOnly(c *Ctx, rule string) {
+	la := c.locks()
+	isListerCall := func(call ssa.CallInstruction) bool {
+		cc := call.Common()
+		name := ""
+		if cc.IsInvoke() {
+			name = cc.Method.Name()
+			rt := cc.Value.Type().String()
+			if !(strings.HasSuffix(rt, "Lister") || strings.HasSuffix(rt, "NamespaceLister") || strings.HasSuffix(rt, "cache.Indexer") || strings.HasSuffix(rt, "cache.Store") || strings.HasSuffix(rt, "GenericLister") || strings.HasSuffix(rt, "GenericNamespaceLister")) {
+				return false
+			}
+		} else {
+			return false
+		}
+		switch name {
+		case "Get", "List", "GetByKey", "ByIndex", "ListKeys":
+			return name != "ListKeys"
+		}
+		return false
+	}
+	type item struct {
+		fn *ssa.Function
+		v  ssa.Value
+		d  int
+	}
+	seen := map[ssa.Value]bool{}
+	sites, writes := 0, 0
+	var work []item
+	for _, fn := range c.SrcFns {
+		if isGenerated(fn) {
+			continue
+		}
+		p := fn.Pkg.Pkg.Path()
+		if strings.Contains(p, "/client/") || strings.Contains(p, "/testing") || strings.HasSuffix(p, "pkg/utils/test") {
+			continue
+		}
+		allInstrs(fn, func(in ssa.Instruction) {
+			call, ok := in.(*ssa.Call)
+			if !ok || !isListerCall(call) {
+				return
+			}
+			sites++
+			for _, ref := range *call.Referrers() {
+				if ex, ok := ref.(*ssa.Extract); ok && ex.Index == 0 {
+					work = append(work, item{fn, ex, 0})
+				}
+			}
+			if call.Call.Signature().Results().Len() == 1 {
+				work = append(work, item{fn, call, 0})
+			}
+		})
+	}
+	for len(work) > 0 {
+		it := work[len(work)-1]
+		work = work[:len(work)-1]
+		if seen[it.v] || it.d > 4 || it.v.Referrers() == nil {
+			continue
+		}
+		seen[it.v] = true
+		for _, ref := range *it.v.Referrers() {
+			switch x := ref.(type) {
+			case *ssa.FieldAddr:
+				if x.X != it.v {
+					continue
+				}
+				// a store to the field, or deeper
+				for _, r2 := range *x.Referrers() {
+					if st, ok := r2.(*ssa.Store); ok && st.Addr == ssa.Value(x) {
+						writes++
+						c.ob(rule, it.fn, "object from an informer cache is not written", st, false, "store to "+fieldName(x.X.Type(), x.Field)+" of an object obtained from a lister/indexer without DeepCopy: the object is shared with every other reader of the cache")
+					}
+				}
+				work = append(work, item{it.fn, x, it.d})
+			case *ssa.IndexAddr:
+				if x.X == it.v {
+					work = append(work, item{it.fn, x, it.d})
+					for _, r2 := range *x.Referrers() {
+						if ld, ok := r2.(*ssa.UnOp); ok && ld.X == ssa.Value(x) {
+							if _, isPtr := ld.Type().Underlying().(*types.Pointer); isPtr {
+								work = append(work, item{it.fn, ld, it.d})
+							}
+						}
+					}
+				}
+			case *ssa.UnOp:
+				// load of a pointer/map/slice field of the shared object: still shared
+				if x.X == it.v {
+					switch x.Type().Underlying().(type) {
+					case *types.Map, *types.Slice, *types.Pointer:
+						work = append(work, item{it.fn, x, it.d})
+					}
+				}
+			case *ssa.MapUpdate:
+				if x.Map == it.v {
+					writes++
+					c.ob(rule, it.fn, "object from an informer cache is not written", x, false, "map of an object obtained from a lister/indexer is updated in place")
+				}
+			case *ssa.Phi:
+				work = append(work, item{it.fn, x, it.d})
+			case *ssa.TypeAssert:
+				work = append(work, item{it.fn, x, it.d})
+			case *ssa.Extract:
+				work = append(work, item{it.fn, x, it.d})
+			case *ssa.Store:
+				if x.Val == it.v {
+					if a, ok := x.Addr.(*ssa.Alloc); ok {
+						for _, r2 := range *a.Referrers() {
+							if ld, ok := r2.(*ssa.UnOp); ok && ld.X == ssa.Value(a) {
+								work = append(work, item{it.fn, ld, it.d})
+							}
+						}
+					}
+				}
+			case ssa.CallInstruction:
+				cc := x.Common()
+				if cc.IsInvoke() || cc.StaticCallee() == nil {
+					// method DeepCopy etc. on the object itself: results are fresh
+				}
+				for _, g := range la.calleesOf(x) {
+					if g.Blocks == nil {
+						continue
+					}
+					actuals := cc.Args
+					if cc.IsInvoke() {
+						actuals = append([]ssa.Value{cc.Value}, cc.Args...)
+					}
+					for i, a := range actuals {
+						if a == it.v && i < len(g.Params) {
+							work = append(work, item{g, g.Params[i], it.d + 1})
+						}
+					}
+				}
+			}
+		}
+	}
+	c.ob(rule, nil, "lister / indexer lookups followed", nil, sites >= 10, fmt.Sprintf("%d lookups in informer caches followed through fields, elements, locals and module callees (depth 4); %d writes found", sites, writes))
+}
+
+// C19.R9 — a container is published into a guarded table only after it was filled: no in-place update of a local map/slice
+// on a path after it was stored into a lock-protected field or map (the later updates would run outside the lock's protection
+// of readers that found the container through the table)
+func rulePublishAfterFill(c *Ctx, rule string) {
+	la := c.locks()
+	n := 0
+	for _, fn := range c.SrcFns {
+		if isGenerated(fn) {
+			continue
+		}
+		allInstrs(fn, func(in ssa.Instruction) {
+			var pub ssa.Value
+			switch x := in.(type) {
+			case *ssa.MapUpdate:
+				if ld, ok := x.Map.(*ssa.UnOp); ok {
+					if fa, ok := ld.X.(*ssa.FieldAddr); ok && la.specOfFieldAddr(fa) != nil {
+						pub = x.Value
+					}
+				}
+			case *ssa.Store:
+				if fa, ok := x.Addr.(*ssa.FieldAddr); ok && la.specOfFieldAddr(fa) != nil {
+					pub = x.Val
+				}
+			}
+			if pub == nil {
+				return
+			}
+			switch pub.Type().Underlying().(type) {
+			case *types.Map, *types.Slice:
+			default:
+				return
+			}
+			if _, isMake := pub.(*ssa.MakeMap); !isMake {
+				if _, isMs := pub.(*ssa.MakeSlice); !isMs {
+					if _, isPhi := pub.(*ssa.Phi); !isPhi {
+						if _, isLd := pub.(*ssa.UnOp); !isLd {
+							return
+						}
+					}
+				}
+			}
+			n++
+			after := c.reachAfter(in, nil)
+			bad := ""
+			same := func(v ssa.Value) bool { return v == pub || sameAccess(v, pub) }
+			allInstrs(fn, func(i2 ssa.Instruction) {
+				if !after.has(i2) || i2 == in {
+					return
+				}
+				switch y := i2.(type) {
+				case *ssa.MapUpdate:
+					if same(y.Map) {
+						bad = c.instrPos(y)
+					}
+				case *ssa.Store:
+					if ia, ok := y.Addr.(*ssa.IndexAddr); ok && same(ia.X) {
+						bad = c.instrPos(y)
+					}
+				}
+			})
+			c.ob(rule, fn, "a container stored into a guarded table is complete when it is published", in, bad == "", "no in-place update of the published map/slice on a path after the publishing store "+bad)
+		})
+	}
+	if n < 3 {
+		c.undecided(rule, nil, "publishing stores", nil, fmt.Sprintf("expected at least 3 stores of local containers into guarded tables, found %d", n))
+	}
+}
